@@ -14,6 +14,6 @@ P = {
     ],
     "tiers": tiers(
         quick=[{"name": "rand", "mode": "run", "count": 3000, "max_size": 100, "shards": 12, "max_seconds": 70}],
-        thorough=[{"name": "rand", "mode": "run", "count": 20000, "max_size": 100, "shards": 16, "max_seconds": 600}],
+        thorough=[{"name": "rand", "mode": "run", "count": 200000, "max_size": 100, "shards": 16, "max_seconds": 1200}],
     ),
 }
